@@ -21,6 +21,9 @@ RULE = (
     "the blanks of the replacement are encoded as in a fresh paragraph. Non-trivial = a match in a tail node or at a node edge; "
     "for formatted, a replacement with a blank run/TAB/LF on an element with >= 2 text nodes; distinct by (layout, pattern, "
     "replacement, mode)."
+    ' Also count/replace on Table, Row, Cell, List and body receivers holding cells filled through Cell(value), cell.value='
+    ', cell.string= and Cell(n, text=): the count equals the matches over every text node of the subtree (independent walk)'
+    ' and each text node becomes re.sub of itself.'
 )
 ASSUMPTIONS = [
     "Python re is the reference regex engine (the API documents Python syntax)",
